@@ -387,6 +387,9 @@ def run(ctx):
     ctx.pmap("mzcheck.checks.c09", "pair_task", tasks)
     ctx.pmap("mzcheck.checks.c09", "other_task", [dict(tier=ctx.tier, what="sets"), dict(tier=ctx.tier, what="endpoints"), dict(tier=ctx.tier, what="alias")])
     ctx.pmap("mzcheck.checks.c09", "live_history_task", [dict(si=i, depth=3 if ctx.quick else 4) for i in range(len(_hist_specs()))])
+    for hs in (("7",) if ctx.quick else ("1", "4", "7", "4242")):  # slices again in interpreters with other hash seeds (hash() of a maze must not decide equality or set membership)
+        ctx.pmap("mzcheck.checks.c09", "pair_task", tasks[::8], hashseed=hs)
+        ctx.pmap("mzcheck.checks.c09", "other_task", [dict(tier=ctx.tier, what="sets"), dict(tier=ctx.tier, what="endpoints")], hashseed=hs)
     ctx.coverage.update(family_size=n, ordered_pairs=2 * n * n,
                         live_histories=dict(ops=HIST_OPS, depth=3 if ctx.quick else 4, mazes=len(_hist_specs()), histories=ctx.res.counters.get("live_histories", 0)))
     ctx.rule = ("all ordered pairs over a family of mazes (3 kinds x shapes x one-bit / one-endpoint / one-solution-cell variants x metadata variants), "
